@@ -3,25 +3,23 @@
      const double ratio(std::min(0.6, 0.2 + 100.0 / (s + 100.0)));
      const double target_size(std::max(1.0, s * ratio));
      ... static_cast<std::ptrdiff_t>(target_size)
-   Definitions only (extracted); the comparison with the exact rational value
-   [target_q] is in ValidTargetProofs.v. *)
+   The two expressions are REGENERATED from dss.cc on every check run
+   (Gen/ValidTargetFacts.v: gen_ratio, gen_target_size); this file only adds the
+   conversions.  Definitions only (extracted); proofs in ValidTargetProofs.v. *)
 From Coq Require Import ZArith.
 From VV Require Import Base.F64 Valid.ValidDefs.
+From VV Require Export Gen.ValidTargetFacts.
 Local Open Scope Z_scope.
 
+(* the literals of the pinned source, as bit patterns (used by the proofs) *)
 Definition d_0_6 : f64 := F64.of_bits 4603579539098121011.   (* 0x3FE3333333333333 *)
 Definition d_0_2 : f64 := F64.of_bits 4596373779694328218.   (* 0x3FC999999999999A *)
-Definition d_100 : f64 := F64.of_Z 100.
-Definition d_1 : f64 := F64.of_Z 1.
-
-(* std::min(a, b) = (b < a) ? b : a ;  std::max(a, b) = (a < b) ? b : a *)
-Definition std_min (a b : f64) : f64 := if F64.ltb b a then b else a.
-Definition std_max (a b : f64) : f64 := if F64.ltb a b then b else a.
+Definition d_100 : f64 := F64.of_bits 4636737291354636288.   (* 0x4059000000000000 *)
+Definition d_1 : f64 := F64.of_bits 4607182418800017408.     (* 0x3FF0000000000000 *)
 
 Definition target_f64 (s : Z) : option Z :=
   let sd := F64.of_Z s in
-  let ratio := std_min d_0_6 (F64.add d_0_2 (F64.div d_100 (F64.add sd d_100))) in
-  F64.to_Z_trunc (std_max d_1 (F64.mul sd ratio)).
+  F64.to_Z_trunc (gen_target_size sd (gen_ratio sd)).
 
 (* as the [tsz] component of a configuration: -1 (an error outcome of shake_impl)
    when the conversion is undefined *)
